@@ -233,6 +233,11 @@ def run(ctx: Ctx):
                     pairs[rnd.randrange(len(pairs))][1] = 77
                 rnd.shuffle(pairs)
                 kw = []
+            if op in ("or", "ror", "ior"):
+                # gamma passes these as a plain dict: raw keys must be distinct, otherwise the
+                # dict literal itself (not the code under test) reorders the assignments
+                seen = set()
+                pairs = [p for p in pairs if not (tuple(p[0]) in seen or seen.add(tuple(p[0])))]
             if op not in ("new", "update"):
                 kw = []
             if op in ("or", "ror", "ior", "eq", "new", "update"):
